@@ -13,17 +13,19 @@ import (
 	"os"
 	"path/filepath"
 	"strings"
+	"time"
 
 	gno "github.com/gnolang/gno/gnovm/pkg/gnolang"
 	"github.com/gnolang/gno/gnovm/pkg/packages"
 	"github.com/gnolang/gno/gnovm/pkg/test"
-	teststdlibs "github.com/gnolang/gno/gnovm/tests/stdlibs/chain/runtime"
 	"github.com/gnolang/gno/tm2/pkg/std"
+	storetypes "github.com/gnolang/gno/tm2/pkg/store/types"
 )
 
 // Env is a loaded GnoVM store plus an output buffer.
 type Env struct {
 	root  string
+	base  storetypes.CommitStore
 	store gno.Store
 	out   *bytes.Buffer
 }
@@ -81,8 +83,24 @@ func New(root, workDir string, overlays ...Overlay) (*Env, error) {
 		pl = append(pl, &packages.Package{Dir: dst, ImportPath: ov.PkgPath})
 	}
 	e := &Env{root: root, out: &bytes.Buffer{}}
-	_, e.store = test.TestStore(root, e.out, pl)
+	e.base, e.store = test.TestStore(root, e.out, pl)
 	return e, nil
+}
+
+// TraceLoads wraps the package getter so that every package load is reported.
+func (e *Env) TraceLoads(f func(pkgPath string, d time.Duration)) {
+	type gs interface {
+		GetPackageGetter() gno.PackageGetter
+		SetPackageGetter(gno.PackageGetter)
+	}
+	st := e.store.(gs)
+	inner := st.GetPackageGetter()
+	st.SetPackageGetter(func(pkgPath string, store gno.Store) (*gno.PackageNode, *gno.PackageValue) {
+		t0 := time.Now()
+		pn, pv := inner(pkgPath, store)
+		f(pkgPath, time.Since(t0))
+		return pn, pv
+	})
 }
 
 // Preload loads the given packages (and their imports) into the base store.
@@ -123,7 +141,11 @@ func fmtPanic(m *gno.Machine, r any) string {
 // error) is returned as err together with the output produced so far.
 func (e *Env) Run(pkgPath, pkgName, fname, src string, maxAlloc int64) (out string, err error) {
 	e.out.Reset()
-	txs := e.store.BeginTransaction(nil, nil, nil, nil)
+	// Writes of this run (a realm driver is saved like a deployed package) go
+	// to a cache layer over the base store that is never flushed, so runs do
+	// not see each other.
+	cw := e.base.CacheWrap()
+	txs := e.store.BeginTransaction(cw, cw, nil, nil)
 	ctx := test.Context("", pkgPath, nil)
 	m := gno.NewMachineWithOptions(gno.MachineOptions{
 		Output:        e.out,
@@ -166,5 +188,3 @@ func (e *Env) Run(pkgPath, pkgName, fname, src string, maxAlloc int64) (out stri
 	m.RunMainMaybeCrossing()
 	return e.out.String(), nil
 }
-
-var _ = teststdlibs.TestExecContext{}
